@@ -9,7 +9,7 @@ process (every repetition builds fresh maps) and in several processes (fresh has
 multiset of ALL diagnostics (every level, message, notes, span), the verdict, both backends'
 outcome and output must be identical throughout.
 """
-from gen import modgraphs as mg
+from gen import modgraphs as mg, families
 from props.C15 import fields, mod_line
 from vlib import core, progstream
 
@@ -34,6 +34,10 @@ CORPUS = [
               "    fn dim(self: $Device, percent: int) -> bool { true }\n    fn set_temp(self: $Device, celsius: float) { }\n}\nfn main() { }\n"}, "A13"),
     ({"main": "fn main() { let x = 1; let r = match x { 1 => 10, _ => match x { 2 => 20, _ => match x { 3 => 30, _ => zz } } }; println(r); }"}, "A14"),
     ({"main": "fn main() { let u1 = 1; let u2 = 2; let u3 = 3; let u4 = 4; let u5 = 5; let u6 = 6; }\nfn q1() { }\nfn q2() { }\nfn q3() { }"}, "warnings"),
+] + [({"main": src}, "match-overlap") for src in families.overlapping_match()] + [
+    # a global range iterated in several functions and twice in a row (iteration state must not live in the shared value)
+    ({"main": "let R = 0..4;\nfn a() -> int { let s = 0; for i in R { s += i; if i == 1 { break; } } s }\nfn b() -> int { let s = 0; for i in R { s += i; } s }\n"
+              "fn main() { println(a(), b(), a(), b()); for i in R { for j in R { print(i * 10 + j, \"\"); } } println(\"\"); }"}, "global-range"),
 ]
 
 KNOWN = {
